@@ -229,6 +229,7 @@ func vRunNative(h func()) (outcome string) {
 		}
 	}()
 	vResetRun()
+	defer vCleanupTempDirs()
 	h()
 	return "OK"
 }
@@ -270,3 +271,52 @@ func vExpectLevel(M int) int {
 	}
 	return level
 }
+
+// ---- storage tier: file-system model controls (no-ops natively; the native run uses the real file system) ----
+
+func vTempDir() string {
+	d, err := os.MkdirTemp("", "verif-store-")
+	if err != nil {
+		panic(err)
+	}
+	vTempDirs = append(vTempDirs, d)
+	return d
+}
+
+var vTempDirs []string
+
+func vCleanupTempDirs() {
+	for _, d := range vTempDirs {
+		os.RemoveAll(d)
+	}
+	vTempDirs = nil
+}
+
+func vFSFailAt(n int)  { panic(vAssumeFailed{"fault injection is only available in the file-system model"}) }
+func vFSCrashAt(n int) { panic(vAssumeFailed{"crash points are only available in the file-system model"}) }
+func vFSOps() int      { return 0 }
+func vFSExists(path string) bool {
+	_, err := os.Stat(path)
+	return err == nil
+}
+func vFSList() string {
+	var out string
+	for _, d := range vTempDirs {
+		es, _ := os.ReadDir(d)
+		for _, e := range es {
+			out += e.Name() + ","
+		}
+	}
+	return out
+}
+func vFSTruncate(path string, n int) { os.Truncate(path, int64(n)) }
+func vFSSize(path string) int {
+	st, err := os.Stat(path)
+	if err != nil {
+		return -1
+	}
+	return int(st.Size())
+}
+func vFSRemove(path string)             { os.Remove(path) }
+func vFSLog() string                    { return "" }
+func vRunUntilCrash(f func()) bool      { f(); return false }
